@@ -374,6 +374,20 @@ impl Workload {
             .jobs_pending
             .get(&glyph_order_id)
             .is_some_and(|job| job.running);
+        #[cfg(fontc_verif)]
+        if verif::enabled() {
+            verif::log(&format!(
+                "guard {} {}",
+                verif::fmt_id(&glyph_order_id),
+                if glyph_order_in_flight {
+                    "running"
+                } else if self.jobs_pending.contains_key(&glyph_order_id) {
+                    "idle"
+                } else {
+                    "gone"
+                }
+            ));
+        }
         if glyph_order_in_flight {
             trace!("Deferring update of {be_id:?} until glyph order completes");
             return;
